@@ -154,8 +154,13 @@ pub fn def() -> CheckDef {
         rule: "proptest: reference encodings (random foreign compression) of multi-record messages in which chosen records get an RDLENGTH larger than their typed content (random surplus bytes, or a surplus that is itself a well-formed A record) or smaller than it, followed by further records; header counts larger than the entries present; plus mutated encodings. Oracle = independent envelope walker + schema decoder confined to each RDLENGTH slice: walker failure => library Err; content not decodable inside its frame => library Err; library Ok => every question/record equals the framed entry (owner, type, class, bit 15, TTL, RDATA decoded from the frame, surplus ignored). Non-trivial = library accepted, >= 2 records and a tweaked RDLENGTH before the last record (mutated: >= 1 mutation)",
         assumptions: vec!["the library may reject for reasons of its own (class, QTYPE, Z bit, surplus): no claim", "unnamed opcode / rcode values are compared as Reserved"],
         sections: vec![
+            Box::new(ReplayOnly { name: "fuzz-bytes", check: check_raw }),
             Box::new(PropSection { name: "rdlength", rule: "RDLENGTH vs content mismatches", strategy, cases: (60_000, 1_500_000), check }),
             Box::new(PropSection { name: "mutated", rule: "mutated reference encodings", strategy: super::c01::mutated_strategy, cases: (60_000, 1_500_000), check: check_mutated }),
         ],
     }
+}
+
+fn check_raw(b: &Bytes, case: &mut Case) -> Result<(), Fail> {
+    framing_oracle(b, case).map(|_| ())
 }
